@@ -3,6 +3,7 @@ Router proofs, part 7: the `Router` (matcher tower + id map): representation rel
 preservation by every operation, and the consequences used by C01 / C02 / C17.
 -/
 import RioModel.Proofs.RouterSat
+import RioModel.Model.RouterOps
 
 set_option linter.unusedSimpArgs false
 set_option linter.unusedVariables false
@@ -214,14 +215,6 @@ theorem rrepr_batch (S : Router E) (L : List Route) (ids : List String) (h : RRe
   · intro e he; exact h.keyed e (List.mem_filter.mp he).1
   · exact map_snd_filter_key E S L h (fun k => !ids.contains k)
 
-/-- the live list after inserting `rs` one by one -/
-def insertAll (rs : List Route) (L : List Route) : List Route := rs.foldl (fun L r => r :: L) L
-
-/-- every id is fresh at the moment it is inserted -/
-def FreshAll : List Route → List Route → Prop
-  | [], _ => True
-  | r :: rs, L => r.id ∉ L.map (·.id) ∧ FreshAll rs (r :: L)
-
 theorem rrepr_insertAll (rs : List Route) : ∀ (S : Router E) (L : List Route), RRepr E S L →
     FreshAll rs L → RRepr E (rs.foldl (fun S r => S.insert E r) S) (insertAll rs L) := by
   induction rs with
@@ -230,11 +223,6 @@ theorem rrepr_insertAll (rs : List Route) : ∀ (S : Router E) (L : List Route),
     intro S L h hf
     simp only [List.foldl_cons, insertAll]
     exact ih _ _ (rrepr_insert E S L r h hf.1) hf.2
-
-/-- the live list after `apply_change_set(added, updated, removed)` -/
-def liveChangeSet (added updated : List Route) (removed : List String) (L : List Route) : List Route :=
-  insertAll added (insertAll updated
-    (L.filter (fun r => !(removed ++ updated.map (·.id)).contains r.id)))
 
 theorem rrepr_changeSet (S : Router E) (L : List Route) (added updated : List Route)
     (removed : List String) (h : RRepr E S L)
